@@ -1,6 +1,7 @@
 package rules
 
 import (
+	"go/constant"
 	"fmt"
 	"go/token"
 
@@ -40,22 +41,68 @@ func c15(c *Ctx) {
 	c15get(c)
 	c15users(c)
 	c15pureHash(c)
+	c15injectiveNames(c)
 }
 
 // hashDerivation renders the argument of a hashFunc call: want []byte(nodeRepr + strconv.Itoa(i)).
 func c15isVnodeHash(p *px.Path, e *px.Event, isRepr func(*px.Sym) bool) (idx *px.Sym, ok bool) {
+	idx, _, ok = c15vnodeName(p, e, isRepr)
+	return
+}
+
+// c15vnodeName recognises the name a virtual node is hashed from: a string concatenation containing the node's
+// representation, strconv.Itoa(replica index) and constant pieces, in any arrangement. separated reports whether a
+// non-empty constant stands between the two variable-length parts.
+func c15vnodeName(p *px.Path, e *px.Event, isRepr func(*px.Sym) bool) (idx *px.Sym, separated, ok bool) {
 	if e.Kind != px.EvCall || !e.Call.IsDyn() || !px.IsFieldLoad(e.Call.FnSym, "hashFunc", nil) || len(e.Call.Args) != 1 {
-		return nil, false
+		return nil, false, false
 	}
-	a := e.Call.Args[0].Strip(true)
-	if a.Kind != px.KBinOp || a.Op != token.ADD || !isRepr(a.X) {
-		return nil, false
+	var parts []*px.Sym
+	var flat func(s *px.Sym, d int)
+	flat = func(s *px.Sym, d int) {
+		s = s.Strip(false)
+		if s != nil && s.Kind == px.KBinOp && s.Op == token.ADD && d < 6 {
+			flat(s.X, d+1)
+			flat(s.Y, d+1)
+			return
+		}
+		parts = append(parts, s)
 	}
-	it := a.Y.Strip(false)
-	if it.Kind != px.KCall || shortName(it.Call) != "strconv.Itoa" {
-		return nil, false
+	flat(e.Call.Args[0].Strip(true), 0)
+	ri, ii := -1, -1
+	for k, s := range parts {
+		switch {
+		case s == nil:
+			return nil, false, false
+		case isRepr(s):
+			if ri >= 0 {
+				return nil, false, false
+			}
+			ri = k
+		case s.Kind == px.KCall && s.Call != nil && (shortName(s.Call) == "strconv.Itoa" || shortName(s.Call) == "strconv.FormatInt"):
+			if ii >= 0 {
+				return nil, false, false
+			}
+			ii = k
+			idx = s.Call.Args[0]
+		case s.Kind == px.KConst:
+		default:
+			return nil, false, false
+		}
 	}
-	return it.Call.Args[0], true
+	if ri < 0 || ii < 0 {
+		return nil, false, false
+	}
+	lo, hi := ri, ii
+	if lo > hi {
+		lo, hi = hi, lo
+	}
+	for k := lo + 1; k < hi; k++ {
+		if a := p.Abs(parts[k]); a.K == px.ConstV && a.C.Kind() == constant.String && constant.StringVal(a.C) != "" {
+			separated = true
+		}
+	}
+	return idx, separated, true
 }
 
 func c15add(c *Ctx) {
